@@ -2,6 +2,7 @@
 # MANIFEST.setup_cmd: build the framework from files on disk only (offline).
 set -e
 cd "$(dirname "$0")"
+V="$(pwd)"
 export GOFLAGS=-mod=mod GOPROXY=off GOSUMDB=off GOTOOLCHAIN=local
 mkdir -p bin .work evidence replays
 echo "== Coq development (full .vo build)"
@@ -11,4 +12,6 @@ echo "== extraction + model runner"
 echo "== harness"
 cat /repo/go.sum /repo/example/go.sum 2>/dev/null | sort -u > harness/go.sum
 (cd harness && for c in cmd/*; do go build -tags verif -o ../bin/$(basename $c) ./$c; done)
+echo "== base protoc plug-ins (from the module cache) and the plug-in under test (from /repo)"
+(cd /repo && go build -o "$V"/bin/protoc-gen-go google.golang.org/protobuf/cmd/protoc-gen-go && go build -o "$V"/bin/protoc-gen-gogo github.com/gogo/protobuf/protoc-gen-gogo && go build -o "$V"/bin/protoc-gen-fastmarshal ./cmd/protoc-gen-fastmarshal)
 echo "setup done"
